@@ -889,6 +889,12 @@ pub fn run(rng: &mut R, out: &mut Out) {
         vec![lf(128, 1), lf(128, 2)],
         vec![(1, Item::Leaf(vec![1], 0xc5))],
         vec![(1, Item::Leaf(vec![1], 0x50))],
+        // the depth limit holds for hidden nodes as for leaves
+        vec![(129, Item::Hidden([7u8; 32]))],
+        vec![(130, Item::Hidden([7u8; 32]))],
+        vec![(200, Item::Hidden([7u8; 32]))],
+        vec![(128, Item::Hidden([7u8; 32])), (128, Item::Hidden([8u8; 32]))],
+        vec![(129, Item::Hidden([7u8; 32])), (129, Item::Hidden([8u8; 32]))],
     ] {
         one_listing(&cx, rng, out, &items, None, true, false);
     }
@@ -900,6 +906,19 @@ pub fn run(rng: &mut R, out: &mut Out) {
         t.dfs(0, &mut items);
         out.count(&format!("chain.depth.{}", d));
         one_listing(&cx, rng, out, &items, Some(&t), true, d <= 128 && (th || d == 128 && !hidden));
+    }
+
+    // the same with BOTH deepest nodes hidden and script leaves only above them: 128 accepted, 129/130 refused
+    for d in [127usize, 128, 129, 130] {
+        let mut t = T::Node(Box::new(T::Hidden(gen::arr32(rng))), Box::new(T::Hidden(gen::arr32(rng))));
+        for i in 1..d {
+            let s = if i % 3 == 0 { T::Hidden(gen::arr32(rng)) } else { T::Leaf(vec![0x51, (i & 0xff) as u8], 0xc4) };
+            t = if rng.gen_bool(0.5) { T::Node(Box::new(s), Box::new(t)) } else { T::Node(Box::new(t), Box::new(s)) };
+        }
+        let mut items = vec![];
+        t.dfs(0, &mut items);
+        out.count(&format!("chain.hidden_bottom.depth.{}", d));
+        one_listing(&cx, rng, out, &items, Some(&t), true, false);
     }
 
     // random trees
